@@ -88,6 +88,8 @@ def check(chk, fx):
     from .. import primrules
     primrules.prims(chk, fx, "NAMEFILL")
     primrules.prims(chk, fx, "UTIL")          # symbols of the listing are resolved by exact string comparison
+    from . import c17
+    c17.symbol_lookup(chk, fx)
     enums = c05._enum_values(fx)
     c05.conf(chk, fx, enums)
     lr.all_table_rules(chk, fx)
